@@ -102,7 +102,7 @@ def akai_payload3():
 
 
 def akai_payload4():
-    """a DAMAGED image (its second partition holds a volume with two unparsable files (wiped header; declared size shorter than a header) among good ones): the second volume's entry points to a start sector outside the allocation table, so that volume
+    """a DAMAGED image (its second partition holds a volume with two unparsable files (wiped header; declared size shorter than a header) and two files of kinds the tool does not decode (DRUM, EFFECT) among good ones): the second volume's entry points to a start sector outside the allocation table, so that volume
     cannot be realised; requests that touch it fail -- and must fail the same way whatever happened before"""
     import struct
     spec = {"parts": [{"vols": [
@@ -114,7 +114,10 @@ def akai_payload4():
         {"vols": [{"name": "HOLE", "dir": [3], "files": [{"name": "KICK", "n": 120, "chain": [4], "seq": 5}, {"name": "WIPED", "n": 90, "chain": [5], "seq": 6},
                                                          {"name": "SNARE", "n": 110, "chain": [6], "seq": 7},
                                                          # (its entry declares 30 bytes: too short to hold a sample header)
-                                                         {"name": "SHORT", "n": 70, "chain": [7], "seq": 8}]}]}]}
+                                                         {"name": "SHORT", "n": 70, "chain": [7], "seq": 8},
+                                                         # (files of kinds the tool does not decode: drum settings, an effects file)
+                                                         {"name": "KIT", "kind": "raw", "ftype": 0x64, "chain": [8], "data": bytes(range(80)).hex()},
+                                                         {"name": "FX", "kind": "raw", "ftype": 0x78, "chain": [9], "data": bytes(range(60)).hex()}]}]}]}
     img, layout = A.build_akai(A.model_from_spec(spec))
     b = bytearray(img)
     struct.pack_into("<H", b, layout["p0.vol1.entry"][0] + 14, 0x3000)
@@ -142,7 +145,7 @@ def akai5_paths():
 
 def akai4_paths():
     return ["", "A:", "A:/GOOD", "A:/BAD", "A:/LAST", "A:/GOOD/SMP", "A:/BAD/LOST", "A:/LAST/END", "A:/BAD/x", "nope",
-            "B:", "B:/HOLE", "B:/HOLE/KICK", "B:/HOLE/SNARE", "B:/HOLE/WIPED", "B:/HOLE/SHORT"]
+            "B:", "B:/HOLE", "B:/HOLE/KICK", "B:/HOLE/SNARE", "B:/HOLE/WIPED", "B:/HOLE/SHORT", "B:/HOLE/KIT"]
 
 
 def discover_paths(fmt, depth=3):
@@ -332,7 +335,7 @@ class Check(CheckBase):
     title = "Results depend only on the image bytes, not on what was looked at before"
     rule = ("per image (AKAI: 2 partitions x 2 volumes, differing sample rates and a rate field of 0, L/R pair, fragmented chains, a program, a file filling its last "
             "sector; Roland: 2 volumes + orphan performance, shared sample, reverse mode, start point > 0, two samples in one cluster chain reached through different performances, L/R pair; CDDA: duplicate and missing "
-            "titles; AKAI and Roland again as read-only real files; a DAMAGED AKAI image (one volume cannot be realised: requests touching it fail, and must fail the same way under every history; its second partition holds a volume with two unparsable files (wiped header; declared size shorter than a header) among good ones); an INCOMPLETE AKAI image that ends inside a mono sample's audio and inside the right half of an L/R pair; a third AKAI image whose names are sanitised differently by role "
+            "titles; AKAI and Roland again as read-only real files; a DAMAGED AKAI image (one volume cannot be realised: requests touching it fail, and must fail the same way under every history; its second partition holds a volume with two unparsable files (wiped header; declared size shorter than a header) and two files of kinds the tool does not decode (DRUM, EFFECT) among good ones); an INCOMPLETE AKAI image that ends inside a mono sample's audio and inside the right half of an L/R pair; a third AKAI image whose names are sanitised differently by role "
             "(ending in '-' / '.', '+'), where one raw name is a volume in one partition and a sample in another and where two "
             "sibling volumes (and two sibling files) carry the same stored name, paths discovered through its own listings) the alphabet is ls(p) for every node path p, three invalid "
             "paths, export into a fresh directory, and export into one fixed directory (so that a repeated export writes over "
